@@ -592,6 +592,116 @@ pub fn check_big_screen(c: &BigScreenCase, obs: &mut Obs) -> Check {
     Ok(())
 }
 
+// ------------------------------------------------------------------ vertex and index lists of any length
+
+/// render() takes arbitrary vertex and face lists: vertex lists of 0..5 entries, faces that reuse an index (zero-area
+/// faces) or none at all, one to three calls on the same context. Oracle (metamorphic + the documented counters): the
+/// same faces over the same vertices with 1..3 unused vertices appended must leave identical buffers and identical
+/// statistics except for `verts.i`, which counts the vertices submitted; and calls / prims.i / verts.i equal the
+/// number of calls, faces and vertices handed in.
+#[derive(Clone, Debug, Serialize, Deserialize)]
+pub struct ListCase {
+    pub dims: [u32; 2],
+    /// clip-space vertices and their attribute
+    pub verts: Vec<([X; 4], X)>,
+    pub faces: Vec<[usize; 3]>,
+    /// 0 none, 1 back, 2 front
+    pub cull: u8,
+    pub pad: u8,
+    pub calls: u8,
+}
+
+fn list_case() -> BoxedStrategy<ListCase> {
+    let v = (crate::c03::clip_vertex(), -1.0f32..1.0).prop_map(|(p, a)| (xs(p), X(a)));
+    (4u32..=24, 4u32..=24, proptest::collection::vec(v, 0..=5), proptest::collection::vec([any::<u16>(), any::<u16>(), any::<u16>()], 0..=6), 0u8..3, 1u8..=3, 1u8..=3)
+        .prop_map(|(w, h, verts, f, cull, pad, calls)| {
+            let n = verts.len();
+            let faces = if n == 0 { vec![] } else { f.iter().map(|t| t.map(|r| pick_index(r, n))).collect() };
+            ListCase { dims: [w, h], verts, faces, cull, pad, calls }
+        })
+        .boxed()
+}
+
+fn check_lists(c: &ListCase, obs: &mut Obs) -> Check {
+    use re::math::{pt2, viewport};
+    use re::render::clip::ClipVec;
+    use re::render::raster::Frag;
+    use re::render::shader::Shader;
+    use re::geom::Vertex;
+    use re::render::{render, Context, Framebuf};
+    use re::util::buf::Buf2;
+    let [w, h] = c.dims;
+    ensure!(c.faces.iter().flatten().all(|&i| i < c.verts.len()) && (1..=3).contains(&c.pad) && (1..=3).contains(&c.calls) && w <= 64 && h <= 64, "bad-case", "indices out of range / parameters");
+    let cull = match c.cull {
+        0 => None,
+        1 => Some(re::render::ctx::FaceCull::Back),
+        _ => Some(re::render::ctx::FaceCull::Front),
+    };
+    let faces: Vec<Tri<usize>> = c.faces.iter().map(|f| Tri(*f)).collect();
+    let run = |pad: usize| -> Result<(Vec<u32>, Vec<u32>, [usize; 7], f32), String> {
+        let mut verts: Vec<Vertex<ClipVec, f32>> = c.verts.iter().map(|(p, a)| vertex(fs(*p).into(), a.0)).collect();
+        for k in 0..pad {
+            verts.push(vertex([0.3 * k as f32, -0.2, 0.1, 1.0].into(), 0.5));
+        }
+        let shader = Shader::new(|v: Vertex<ClipVec, f32>, _: ()| v, |f: Frag<f32>| re::math::rgba(1u8, 2, (f.var * 100.0) as i32 as u8, 4));
+        let ctx = Context { face_cull: cull, ..Context::default() };
+        let mut fb = Framebuf { color_buf: Buf2::new_from((w, h), vec![0x1234_5678u32; (w * h) as usize]), depth_buf: Buf2::new_from((w, h), vec![f32::INFINITY; (w * h) as usize]) };
+        for _ in 0..c.calls {
+            catch(|| render(&faces, &verts, &shader, (), viewport(pt2(0, 0)..pt2(w, h)), &mut fb, &ctx))?;
+        }
+        let st = ctx.stats.borrow().clone();
+        Ok((fb.color_buf.data().to_vec(), fb.depth_buf.data().iter().map(|d| d.to_bits()).collect(), [st.prims.i, st.prims.o, st.verts.i, st.verts.o, st.frags.i, st.frags.o, st.objs.i], st.calls))
+    };
+    let a = match run(0) {
+        Ok(r) => r,
+        Err(p) => fail!("render-panic", "render panicked on {} vertices, faces {:?}: {p}", c.verts.len(), c.faces),
+    };
+    let b = match run(c.pad as usize) {
+        Ok(r) => r,
+        Err(p) => fail!("render-panic", "render panicked on {} (+{} unused) vertices, faces {:?}: {p}", c.verts.len(), c.pad, c.faces),
+    };
+    let calls = c.calls as usize;
+    let names = ["prims.i", "prims.o", "verts.i", "verts.o", "frags.i", "frags.o", "objs.i"];
+    ensure!(a.3 == calls as f32, "statistics-differ", "{} call(s) on {} vertices: stats.calls = {}", calls, c.verts.len(), a.3);
+    ensure!(a.2[0] == calls * c.faces.len(), "statistics-differ", "{} call(s) with {} faces over {} vertices: prims.i = {}", calls, c.faces.len(), c.verts.len(), a.2[0]);
+    ensure!(a.2[2] == calls * c.verts.len(), "statistics-differ", "{} call(s) with {} vertices ({} faces): verts.i = {}", calls, c.verts.len(), c.faces.len(), a.2[2]);
+    for k in 0..7 {
+        let want = if k == 2 { a.2[k] + calls * c.pad as usize } else { a.2[k] };
+        ensure!(
+            b.2[k] == want,
+            "statistics-differ",
+            "faces {:?} over {} vertices, {} call(s): {} = {} , but with {} unused vertices appended it is {} (expected {want})",
+            c.faces,
+            c.verts.len(),
+            calls,
+            names[k],
+            a.2[k],
+            c.pad,
+            b.2[k]
+        );
+    }
+    ensure!(b.3 == a.3, "statistics-differ", "stats.calls differs with unused vertices appended: {} vs {}", a.3, b.3);
+    ensure!(a.0 == b.0 && a.1 == b.1, "buffers-differ-with-unused-vertices", "appending {} unused vertices changed the rendered image (faces {:?} over {} vertices)", c.pad, c.faces, c.verts.len());
+    obs.class(match c.verts.len() {
+        0 => "lists:0 vertices",
+        1 | 2 => "lists:1-2 vertices",
+        _ => "lists:3-5 vertices",
+    });
+    if c.faces.iter().any(|f| f[0] == f[1] || f[1] == f[2] || f[0] == f[2]) {
+        obs.class("lists:a face reuses an index");
+    }
+    if c.faces.is_empty() {
+        obs.class("lists:no faces");
+    }
+    if a.2[1] > 0 {
+        obs.class("lists:some face survives clipping and culling");
+    }
+    if !c.faces.is_empty() {
+        obs.nontrivial(hash_of(&(c.dims, &c.verts, &c.faces, c.cull, c.pad, c.calls)));
+    }
+    Ok(())
+}
+
 pub fn run(cx: &mut Ctx) {
     cx.assume("front face = the vertex order whose (b-a)x(c-a) normal points towards the eye — the winding convention of the crate's own solids (C15) and of the ctx.rs docs (backfaces point away from the camera)");
     cx.assume("scenes with an edge-on triangle or a clipped sub-triangle under 1e-3 px^2 are excluded when culling is on (its winding is numerically ambiguous)");
@@ -603,6 +713,8 @@ pub fn run(cx: &mut Ctx) {
     cx.prop_check("solid", n, solid_case, |c, obs| check_solid(c, obs));
     let n = cx.n(200_000, 5_000_000);
     cx.prop_check("cull-large-screen", n, big_screen_case, |c, obs| check_big_screen(c, obs));
+    let n = cx.n(60_000, 1_500_000);
+    cx.prop_check("index-lists", n, list_case, |c, obs| check_lists(c, obs));
 }
 
 pub fn replay(sub: &str, case: &Value) -> Check {
@@ -611,6 +723,10 @@ pub fn replay(sub: &str, case: &Value) -> Check {
     if sub == "cull-large-screen" {
         let c: BigScreenCase = serde_json::from_value(case.clone()).map_err(|e| Fail::new("bad-replay", e.to_string()))?;
         return check_big_screen(&c, &mut obs);
+    }
+    if sub == "index-lists" {
+        let c: ListCase = serde_json::from_value(case.clone()).map_err(|e| Fail::new("bad-replay", e.to_string()))?;
+        return check_lists(&c, &mut obs);
     }
     if sub == "solid" {
         let c: SolidCase = serde_json::from_value(case.clone()).map_err(|e| Fail::new("bad-replay", e.to_string()))?;
